@@ -37,10 +37,12 @@ pub open spec fn link(st: int, epoch: u64, label: NodeLabel, prev: TreeNode, cur
     || (prev.label.label_len < label.label_len && agree(prev.label, label, prev.label.label_len as int)
         && child_in(prev, if bit(label, prev.label.label_len as int) { Direction::Right } else { Direction::Left }) == Some(curr.label))
 }
-// NodeLabel::root() has length 0 (verified on the source in unit verify_base: NodeLabel::root#E_root)
+// NodeLabel::root() IS the root label: length 0, all bits clear (verified on the source in unit verify_base: NodeLabel::root#E_root
+// ensures is_root(r)); since the repair of D15 the verifier demands exactly this of the label at the top of the fold (mem_ok), and
+// E_folds_to_root / E_anchor_folds hand it over: the fold's label component is the stored root's label == root_label()
 #[verifier::external_body]
 pub proof fn axiom_root_label()
-    ensures root_label().label_len == 0
+    ensures root_label().label_len == 0, is_root(root_label())
 {}
 pub proof fn lemma_canon_of(st: int, epoch: u64, l: NodeLabel)
     requires shaped(st, epoch), stored(st, l, epoch) is Ok
